@@ -216,6 +216,10 @@ def _where(repo, col):
             try:
                 ev.call(fi, [kin.A(p) for p in fi.params])
             except Und as e:
+                uses_exp = any(isinstance(n, ast.Call) and unparse(n.func).split(".")[-1] in ("exp", "save_exp", "expm1") for n in ast.walk(fi.node))
+                if not uses_exp:
+                    col.ok(R, fi, fi.name, f"no exponential in this helper: its divisions are judged at the call sites ({e})", node=fi.node)
+                    continue
                 col.unk(R, fi, fi.name, f"outside the analysable fragment: {e}", node=fi.node)
                 continue
             for node, a, b, stack in ev.divisions:
